@@ -654,6 +654,73 @@ func randMessage(mt protoreflect.MessageType, r *rand.Rand, maxBytes int) protor
 	}
 }
 
+// changeInPlace alters the message object itself: clears a populated field (the encoding shrinks), fills
+// further fields (it grows), or alters a populated sub-message (a nested change).
+func changeInPlace(m protoreflect.Message, r *rand.Rand) string {
+	var set, subs []protoreflect.FieldDescriptor
+	m.Range(func(f protoreflect.FieldDescriptor, _ protoreflect.Value) bool {
+		set = append(set, f)
+		if f.Kind() == protoreflect.MessageKind && !f.IsList() && !f.IsMap() {
+			subs = append(subs, f)
+		}
+		return true
+	})
+	sort.Slice(set, func(i, j int) bool { return set[i].Number() < set[j].Number() })
+	sort.Slice(subs, func(i, j int) bool { return subs[i].Number() < subs[j].Number() })
+	switch k := r.Intn(3); {
+	case k == 0 && len(set) > 0:
+		m.Clear(set[r.Intn(len(set))])
+		return "cleared a field"
+	case k == 1 && len(subs) > 0:
+		sub := m.Mutable(subs[r.Intn(len(subs))]).Message()
+		if r.Intn(2) == 0 {
+			return "nested: " + changeInPlace(sub, r)
+		}
+		randFill(sub, r, 0.6, 3)
+		return "nested: filled further fields"
+	}
+	randFill(m, r, 0.5, 4)
+	return "filled further fields"
+}
+
+// reencode: the codecs are functions of the message's current value, not of what the same object held when it
+// was last sized or encoded. The generated codec is asked FIRST after every in-place change (the reflection
+// codec keeps a size cache of its own in the same struct), and is compared with the reflection codec on a copy.
+func reencode(o *observer, mt protoreflect.MessageType, r *rand.Rand, steps int) {
+	c := o.c
+	m := randMessage(mt, r, 300)
+	o.observe(m.Interface(), "fresh object", true)
+	for step := 1; step <= steps; step++ {
+		how := changeInPlace(m, r)
+		what := fmt.Sprintf("same object, change #%d: %s", step, how)
+		if v, ok := m.Interface().(vtMsg); ok {
+			var size int
+			var vb []byte
+			rc := rawCase{Stream: o.stream, Msg: string(mt.Descriptor().Name()), What: what, Term: term(m)}
+			if err := safely("SizeVT/MarshalVT", func() (e error) { size = v.SizeVT(); vb, e = v.MarshalVT(); return }); err != nil {
+				c.ImplFail(o.stream, "re-encoding an object after it was changed: "+err.Error(), rc)
+				continue
+			}
+			ref := proto.Clone(m.Interface())
+			pb, err := proto.MarshalOptions{Deterministic: true}.Marshal(ref)
+			if err != nil {
+				c.HarnessError("reencode: marshal of the copy: %v", err)
+				continue
+			}
+			rc.PB, rc.VT, rc.SizeVT = hex.EncodeToString(pb), hex.EncodeToString(vb), size
+			if size != len(vb) || len(vb) != len(pb) {
+				c.ImplFail(o.stream, fmt.Sprintf("after an in-place change SizeVT = %d, MarshalVT wrote %d bytes, the reflection codec %d", size, len(vb), len(pb)), rc)
+			}
+			back := mt.New().Interface()
+			if err := safely("proto.Unmarshal", func() error { return proto.Unmarshal(vb, back) }); err != nil || !proto.Equal(back, ref) {
+				c.ImplFail(o.stream, "after an in-place change proto.Unmarshal(MarshalVT(m)) != m", rc)
+			}
+			c.Count("reencode."+strings.SplitN(how, ":", 2)[0], 1)
+		}
+		o.observe(m.Interface(), what, true)
+	}
+}
+
 // ---------------------------------------------------------------- decoder stream (non-canonical inputs)
 
 type wireField struct {
@@ -1030,6 +1097,15 @@ func driveProto(c *hx.Ctx) error {
 		}
 	}
 
+	// 3b. the same object changed in place and encoded again
+	oe := &observer{c: c, stream: "s5_reencode", sh: c.NewShard("s5_reencode", imports, "proto_case", "corr_proto", "holds_proto", perShard)}
+	re := c.Rand("reencode")
+	for _, mt := range types {
+		for i := 0; i < c.Pick(3, 120); i++ {
+			reencode(oe, mt, re, 3)
+		}
+	}
+
 	// 4. decoder inputs that no encoder produces
 	ds := c.NewShard("s4_decode", imports, "dec_case", "corr_dec", "", perShard)
 	rd := c.Rand("decode")
@@ -1088,7 +1164,7 @@ func driveProto(c *hx.Ctx) error {
 	c.Stats.Rule = fmt.Sprintf("all %d message types of the compiled descriptor (%d with generated MarshalVT/UnmarshalVT/SizeVT, compared against both codecs); "+
 		"single: every field alone over the boundary values of its kind (varint length edges, +-1, min/max of the Go type, strings of 127/128/300 bytes and multi-byte UTF-8), "+
 		"sub-messages absent / present-empty / each sub-field alone / optional wrappers unset, zero and set, repeated and map shapes incl. empty keys and values; "+
-		"random: random field subsets, nesting depth <= 5; decode: per field hand-made non-canonical inputs (explicit defaults, over-wide integers, repeated occurrences, merged sub-messages, partial / reordered / duplicate map entries) and canonical bytes rewritten (shuffled, duplicated, split sub-message, truncated, unknown fields, padded varints, overlong length). "+
+		"random: random field subsets, nesting depth <= 5; reencode: one object sized and encoded, then changed in place (field cleared / further fields filled / nested change) and encoded again three times, the generated codec asked first; decode: per field hand-made non-canonical inputs (explicit defaults, over-wide integers, repeated occurrences, merged sub-messages, partial / reordered / duplicate map entries) and canonical bytes rewritten (shuffled, duplicated, split sub-message, truncated, unknown fields, padded varints, overlong length). "+
 		"A case is non-trivial when it encodes to at least one byte (decode stream: when the bytes were rewritten).", len(types), withVT)
 	return nil
 }
